@@ -3,9 +3,14 @@ package main
 // C15: durations, instants, metadata round trips.
 
 import (
+	"bytes"
+	"encoding/base64"
+	"encoding/xml"
 	"fmt"
 	"math"
+	"reflect"
 	"strings"
+	"time"
 
 	"github.com/crewjam/saml"
 )
@@ -59,6 +64,8 @@ func (c *Ctx) durParse(s string) {
 }
 
 func (c *Ctx) genC15() {
+	defer c.genC15Metadata()
+	defer c.genC15Instants()
 	const (
 		ns  = int64(1)
 		sec = int64(1000000000)
@@ -191,5 +198,357 @@ func (c *Ctx) genC15() {
 		}
 		c.count("durparse-class", kind)
 		c.durParse(s)
+	}
+}
+
+// ---- instants (RelaxedTime) ----
+
+func (c *Ctx) tMarshal(t time.Time) {
+	impl := safely(func() string {
+		b, err := saml.RelaxedTime(t).MarshalText()
+		if err != nil {
+			return "err"
+		}
+		return "ok " + encStr(string(b))
+	})
+	// direct oracle: what was written reads back as the instant rounded to the millisecond, in UTC
+	orc := ""
+	if strings.HasPrefix(impl, "ok ") {
+		b, _ := saml.RelaxedTime(t).MarshalText()
+		var back saml.RelaxedTime
+		if err := back.UnmarshalText(b); err != nil {
+			key := "c15-instant-unparseable"
+			if t.Round(time.Millisecond).UTC().Year() > 9999 {
+				key = "c15-year-10000-rounding"
+			}
+			orc = fmt.Sprintf("key=%s %s is written as %q, which UnmarshalText rejects", key, t.Format(time.RFC3339Nano), b)
+		} else if !time.Time(back).Equal(t.Round(time.Millisecond)) {
+			orc = fmt.Sprintf("key=c15-instant-altered %s came back as %s", t.Format(time.RFC3339Nano), time.Time(back).Format(time.RFC3339Nano))
+		} else if !strings.HasSuffix(string(b), "Z") {
+			orc = "key=c15-instant-not-utc " + string(b)
+		}
+	}
+	c.emit("tmarshal", []string{encInt(t.Unix()), encInt(int64(t.Nanosecond()))}, impl, orc)
+}
+
+func (c *Ctx) tParse(s string) {
+	impl := safely(func() string {
+		var rt saml.RelaxedTime
+		if err := rt.UnmarshalText([]byte(s)); err != nil {
+			return "err"
+		}
+		return "ok " + encInt(time.Time(rt).UnixMilli())
+	})
+	c.emit("tparse", []string{encStr(s)}, impl, "")
+}
+
+func (c *Ctx) genC15Instants() {
+	var ts []time.Time
+	date := func(y int, m time.Month, d, h, mi, s, ns int) time.Time { return time.Date(y, m, d, h, mi, s, ns, time.UTC) }
+	// boundary classes: era and century borders, leap days, month ends, the epoch, the ends of the supported range
+	for _, y := range []int{1, 2, 4, 99, 100, 101, 399, 400, 401, 1599, 1600, 1601, 1899, 1900, 1901, 1969, 1970, 1971, 1999, 2000, 2001, 2023, 2024, 2025, 2099, 2100, 2101, 2399, 2400, 9998, 9999} {
+		for _, md := range [][2]int{{1, 1}, {1, 31}, {2, 28}, {2, 29}, {3, 1}, {4, 30}, {6, 30}, {7, 31}, {12, 31}} {
+			for _, hms := range [][3]int{{0, 0, 0}, {23, 59, 59}, {12, 30, 45}} {
+				for _, ns := range []int{0, 1, 499999, 500000, 500001, 999999, 1000000, 50000000, 500000000, 999499999, 999500000, 999999999} {
+					t := date(y, time.Month(md[0]), md[1], hms[0], hms[1], hms[2], ns)
+					if t.Year() < 1 || t.Year() > 9999 {
+						continue
+					}
+					ts = append(ts, t)
+				}
+			}
+		}
+	}
+	n := 3000
+	if !c.quick() {
+		n = 150000
+	}
+	lo, hi := date(1, 1, 1, 0, 0, 0, 0).Unix(), date(9999, 12, 31, 23, 59, 59, 0).Unix()
+	for i := 0; i < n; i++ {
+		sec := lo + c.rng.Int63n(hi-lo)
+		ns := int64(c.rng.Intn(1000000000))
+		switch c.rng.Intn(4) {
+		case 0:
+			ns = int64(c.rng.Intn(1000)) * 1000000 // whole milliseconds
+		case 1:
+			ns = int64(c.rng.Intn(1000))*1000000 + 500000 + int64(c.rng.Intn(3)) - 1 // around the rounding boundary
+		}
+		t := time.Unix(sec, ns).UTC()
+		if c.chance(0.3) {
+			t = t.In(time.FixedZone("", (c.rng.Intn(2*14*60)-14*60)*60))
+		}
+		ts = append(ts, t)
+	}
+	for _, t := range ts {
+		c.count("instant-class", fmt.Sprintf("y%04d-ish", t.Year()/1000*1000))
+		c.tMarshal(t)
+	}
+	// reading: lexical forms of good instants, and strings that must be rejected
+	good := []string{"2006-01-02T15:04:05Z", "2006-01-02T15:04:05.5Z", "2006-01-02T15:04:05.123456789Z", "2006-01-02T15:04:05,25Z", "2006-01-02T15:04:05+07:00", "2006-01-02T15:04:05.999-11:30",
+		"2006-01-02T15:04:05", "2006-01-02T15:04:05.000", "2006-01-02T15:04:05.1234567891Z", "0001-01-01T00:00:00Z", "9999-12-31T23:59:59.999Z", "2000-02-29T00:00:00Z", "2006-01-02T15:04:05+24:00", "2006-01-02T15:04:05-00:60", ""}
+	bad := []string{"2006-01-02 15:04:05Z", "2006-01-02t15:04:05Z", "2006-01-02T15:04:05z", "2006-1-02T15:04:05Z", "06-01-02T15:04:05Z", "2006-01-02T15:04Z", "2006-01-02T24:00:00Z", "2006-01-02T15:60:00Z", "2006-01-02T15:04:60Z",
+		"2006-13-02T15:04:05Z", "2006-00-02T15:04:05Z", "2006-02-30T15:04:05Z", "1900-02-29T00:00:00Z", "2006-04-31T00:00:00Z", "2006-01-00T00:00:00Z", "2006-01-02T15:04:05.Z", "2006-01-02T15:04:05+0700", "2006-01-02T15:04:05+07",
+		"2006-01-02T15:04:05+25:00", "2006-01-02T15:04:05+07:61", "2006-01-02T15:04:05ZZ", "2006-01-02T15:04:05Z ", " 2006-01-02T15:04:05Z", "2006-01-02", "15:04:05Z", "yesterday", "2006-01-02T15:04:05 Z", "+2006-01-02T15:04:05Z",
+		"12006-01-02T15:04:05Z", "2006-01-02T15:04:05.5", "2006-01-02T15:04:05.5+01:00x", "２００６-01-02T15:04:05Z"}
+	for _, s := range append(good, bad...) {
+		c.count("instant-text", "listed")
+		c.tParse(s)
+	}
+	m := 3000
+	if !c.quick() {
+		m = 100000
+	}
+	alphabet := "0123456789-:TZ.+, "
+	for i := 0; i < m; i++ {
+		t := time.Unix(lo+c.rng.Int63n(hi-lo), int64(c.rng.Intn(1000000000))).UTC()
+		s := lexTime(t.UnixMilli(), c.rng.Intn(6))
+		if c.chance(0.3) {
+			s = t.Format(time.RFC3339Nano)
+		}
+		kind := "valid-form"
+		if c.chance(0.5) { // single-position mutation
+			b := []byte(s)
+			p := c.rng.Intn(len(b))
+			switch c.rng.Intn(3) {
+			case 0:
+				b[p] = alphabet[c.rng.Intn(len(alphabet))]
+			case 1:
+				b = append(b[:p], b[p+1:]...)
+			default:
+				b = append(b[:p], append([]byte{alphabet[c.rng.Intn(len(alphabet))]}, b[p:]...)...)
+			}
+			s = string(b)
+			kind = "mutated"
+		}
+		c.count("instant-text", kind)
+		c.tParse(s)
+	}
+}
+
+// ---- metadata fixed point (testing: direct oracle only; there is no model of encoding/xml) ----
+
+func (c *Ctx) randEntityDescriptor() saml.EntityDescriptor {
+	b64 := func(k string) string { return base64.StdEncoding.EncodeToString(c.key(k).Cert.Raw) }
+	loc := func() string {
+		return c.pick("https://sp.example.com/saml/acs", "https://idp.example.com/sso?x=1&y=2", "http://localhost:8000/a b", "https://example.com/ü/%41", "https://h.example/p#frag")
+	}
+	kds := func() []saml.KeyDescriptor {
+		var out []saml.KeyDescriptor
+		for i := c.rng.Intn(3); i > 0; i-- {
+			kd := saml.KeyDescriptor{Use: c.pick("signing", "encryption", "")}
+			for j := 1 + c.rng.Intn(2); j > 0; j-- {
+				kd.KeyInfo.X509Data.X509Certificates = append(kd.KeyInfo.X509Data.X509Certificates, saml.X509Certificate{Data: b64(c.pick("idp", "sp", "ec256"))})
+			}
+			if c.chance(0.3) {
+				kd.EncryptionMethods = []saml.EncryptionMethod{{Algorithm: "http://www.w3.org/2001/04/xmlenc#aes128-cbc"}}
+			}
+			out = append(out, kd)
+		}
+		return out
+	}
+	ed := saml.EntityDescriptor{EntityID: c.pick("https://sp.example.com/metadata", "urn:example:sp", "https://idp.example.com/saml/metadata?a=b&c=d", c.hostile(false))}
+	if c.chance(0.6) {
+		ed.ValidUntil = time.Unix(1700000000+c.rng.Int63n(400000000), int64(c.rng.Intn(1000))*1000000+int64(c.rng.Intn(2))*int64(c.rng.Intn(1000000))).UTC()
+	}
+	if c.chance(0.6) {
+		ed.CacheDuration = time.Duration(c.rng.Int63n(int64(72*time.Hour))) + time.Duration(c.rng.Intn(2))*time.Duration(c.rng.Intn(1000000000))
+	}
+	if c.chance(0.3) {
+		ed.ID = "id-" + fmt.Sprint(c.rng.Intn(1000))
+	}
+	for i := c.rng.Intn(2) + map[bool]int{true: 1, false: 0}[c.chance(0.6)]; i > 0; i-- {
+		var d saml.SPSSODescriptor
+		d.ProtocolSupportEnumeration = "urn:oasis:names:tc:SAML:2.0:protocol"
+		d.KeyDescriptors = kds()
+		if c.chance(0.5) {
+			t := c.chance(0.5)
+			d.AuthnRequestsSigned = &t
+		}
+		if c.chance(0.5) {
+			t := c.chance(0.5)
+			d.WantAssertionsSigned = &t
+		}
+		for j := 1 + c.rng.Intn(3); j > 0; j-- {
+			ep := saml.IndexedEndpoint{Binding: bindingsPool[c.rng.Intn(4)], Location: loc(), Index: c.rng.Intn(5)}
+			if c.chance(0.3) {
+				x := c.chance(0.5)
+				ep.IsDefault = &x
+			}
+			d.AssertionConsumerServices = append(d.AssertionConsumerServices, ep)
+		}
+		for j := c.rng.Intn(2); j > 0; j-- {
+			d.SingleLogoutServices = append(d.SingleLogoutServices, saml.Endpoint{Binding: bindingsPool[c.rng.Intn(2)], Location: loc(), ResponseLocation: loc()})
+		}
+		if c.chance(0.3) {
+			d.NameIDFormats = []saml.NameIDFormat{saml.TransientNameIDFormat, saml.EmailAddressNameIDFormat}
+		}
+		if c.chance(0.3) {
+			as := saml.AttributeConsumingService{Index: c.rng.Intn(3), ServiceNames: []saml.LocalizedName{{Lang: "en", Value: "svc"}}}
+			as.RequestedAttributes = []saml.RequestedAttribute{{Attribute: saml.Attribute{Name: "email", NameFormat: "urn:oasis:names:tc:SAML:2.0:attrname-format:basic", FriendlyName: c.hostile(false)}}}
+			d.AttributeConsumingServices = append(d.AttributeConsumingServices, as)
+		}
+		ed.SPSSODescriptors = append(ed.SPSSODescriptors, d)
+	}
+	for i := c.rng.Intn(2); i > 0; i-- {
+		var d saml.IDPSSODescriptor
+		d.ProtocolSupportEnumeration = "urn:oasis:names:tc:SAML:2.0:protocol"
+		d.KeyDescriptors = kds()
+		for j := 1 + c.rng.Intn(2); j > 0; j-- {
+			d.SingleSignOnServices = append(d.SingleSignOnServices, saml.Endpoint{Binding: bindingsPool[c.rng.Intn(2)], Location: loc()})
+		}
+		if c.chance(0.3) {
+			t := c.chance(0.5)
+			d.WantAuthnRequestsSigned = &t
+		}
+		ed.IDPSSODescriptors = append(ed.IDPSSODescriptors, d)
+	}
+	if c.chance(0.2) {
+		ed.Organization = &saml.Organization{OrganizationNames: []saml.LocalizedName{{Lang: "en", Value: c.hostile(false)}}, OrganizationURLs: []saml.LocalizedURI{{Lang: "en", Value: "https://example.com"}}}
+	}
+	return ed
+}
+
+type mdSummary struct {
+	EntityID string
+	Valid    int64
+	Cache    int64
+	Eps      []string
+	Keys     []string
+}
+
+func summarize(ed *saml.EntityDescriptor) mdSummary {
+	s := mdSummary{EntityID: ed.EntityID, Cache: int64(ed.CacheDuration)}
+	if !ed.ValidUntil.IsZero() {
+		s.Valid = ed.ValidUntil.UnixMilli()
+	}
+	for _, d := range ed.SPSSODescriptors {
+		for _, e := range d.AssertionConsumerServices {
+			def := "-"
+			if e.IsDefault != nil {
+				def = fmt.Sprint(*e.IsDefault)
+			}
+			s.Eps = append(s.Eps, fmt.Sprintf("acs|%s|%s|%d|%s", e.Binding, e.Location, e.Index, def))
+		}
+		for _, e := range d.SingleLogoutServices {
+			s.Eps = append(s.Eps, fmt.Sprintf("slo|%s|%s|%s", e.Binding, e.Location, e.ResponseLocation))
+		}
+		for _, k := range d.KeyDescriptors {
+			for _, x := range k.KeyInfo.X509Data.X509Certificates {
+				s.Keys = append(s.Keys, "sp|"+k.Use+"|"+x.Data)
+			}
+		}
+	}
+	for _, d := range ed.IDPSSODescriptors {
+		for _, e := range d.SingleSignOnServices {
+			s.Eps = append(s.Eps, fmt.Sprintf("sso|%s|%s", e.Binding, e.Location))
+		}
+		for _, k := range d.KeyDescriptors {
+			for _, x := range k.KeyInfo.X509Data.X509Certificates {
+				s.Keys = append(s.Keys, "idp|"+k.Use+"|"+x.Data)
+			}
+		}
+	}
+	return s
+}
+
+func (c *Ctx) metadataFixpoint(name string, ed saml.EntityDescriptor, requireEqual bool) {
+	orc := ""
+	impl := safely(func() string {
+		g1, err := xml.Marshal(ed)
+		if err != nil {
+			return "err marshal"
+		}
+		var v1 saml.EntityDescriptor
+		if err := xml.Unmarshal(g1, &v1); err != nil {
+			orc = "key=c15-metadata-unparseable generated metadata does not re-parse: " + err.Error()
+			return "err reparse"
+		}
+		g2, err := xml.Marshal(v1)
+		if err != nil {
+			return "err marshal2"
+		}
+		var v2 saml.EntityDescriptor
+		if err := xml.Unmarshal(g2, &v2); err != nil {
+			orc = "key=c15-metadata-unparseable second generation does not re-parse: " + err.Error()
+			return "err reparse2"
+		}
+		g3, _ := xml.Marshal(v2)
+		if !bytes.Equal(g2, g3) || !reflect.DeepEqual(v1, v2) {
+			orc = "key=c15-metadata-no-fixpoint the value keeps changing after one marshal/unmarshal generation"
+		}
+		// by design (metadata.go checkEndpointLocation) the location of an endpoint whose binding the library does not know is blanked on
+		// reading; the property is about http(s) endpoints of the known bindings
+		blanked := ed
+		blanked.SPSSODescriptors = append([]saml.SPSSODescriptor{}, ed.SPSSODescriptors...)
+		for i := range blanked.SPSSODescriptors {
+			d := blanked.SPSSODescriptors[i]
+			d.AssertionConsumerServices = append([]saml.IndexedEndpoint{}, d.AssertionConsumerServices...)
+			for j := range d.AssertionConsumerServices {
+				if d.AssertionConsumerServices[j].Binding == "urn:unknown:binding" {
+					d.AssertionConsumerServices[j].Location = ""
+				}
+			}
+			blanked.SPSSODescriptors[i] = d
+		}
+		want := summarize(&blanked)
+		if want.Valid != 0 {
+			want.Valid = ed.ValidUntil.Round(time.Millisecond).UnixMilli()
+		}
+		got := summarize(&v1)
+		if !reflect.DeepEqual(want, got) {
+			orc = fmt.Sprintf("key=c15-metadata-not-preserved entity ID / endpoints / key descriptors / validity / cache duration changed: %+v -> %+v", want, got)
+		}
+		if requireEqual && !reflect.DeepEqual(normalizeMD(ed), normalizeMD(v1)) {
+			orc = "key=c15-metadata-not-equal library-generated metadata does not re-parse to an equal value"
+		}
+		return "ok"
+	})
+	c.count("metadata-kind", name)
+	c.emitOneWay("c15-metadata", []string{encStr(name)}, impl, orc)
+}
+
+// normalizeMD: the value up to what XML cannot distinguish (XMLName fields filled by the decoder, nil vs empty slices, time location)
+func normalizeMD(ed saml.EntityDescriptor) string {
+	if !ed.ValidUntil.IsZero() {
+		ed.ValidUntil = ed.ValidUntil.Round(time.Millisecond).UTC()
+	}
+	for i := range ed.SPSSODescriptors {
+		if ed.SPSSODescriptors[i].ValidUntil != nil {
+			t := ed.SPSSODescriptors[i].ValidUntil.Round(time.Millisecond).UTC()
+			ed.SPSSODescriptors[i].ValidUntil = &t
+		}
+	}
+	for i := range ed.IDPSSODescriptors {
+		if ed.IDPSSODescriptors[i].ValidUntil != nil {
+			t := ed.IDPSSODescriptors[i].ValidUntil.Round(time.Millisecond).UTC()
+			ed.IDPSSODescriptors[i].ValidUntil = &t
+		}
+	}
+	b, _ := xml.Marshal(ed)
+	return string(b)
+}
+
+func (c *Ctx) genC15Metadata() {
+	n := 300
+	if !c.quick() {
+		n = 6000
+	}
+	for i := 0; i < n; i++ {
+		c.metadataFixpoint("generated", c.randEntityDescriptor(), false)
+	}
+	// what the library itself publishes
+	saml.TimeNow = func() time.Time { return baseTime.Add(time.Duration(c.rng.Intn(1000)) * time.Millisecond) }
+	for i := 0; i < 40; i++ {
+		cfg := e2eCfg{KeyName: c.pick("sp", "sp2", "ec256", "none"), EntityID: c.pick("", "https://sp.example.com/entity")}
+		cfg.SigMethod = spSigMethodFor(cfg.KeyName, c)
+		sp := c.buildSP(cfg, &saml.EntityDescriptor{})
+		sp.SloURL = mustURL("https://sp.example.com/saml/slo")
+		if c.chance(0.5) {
+			sp.LogoutBindings = []string{saml.HTTPPostBinding, saml.HTTPRedirectBinding}
+		}
+		c.metadataFixpoint("sp.Metadata()", *sp.Metadata(), true)
+		idp := c.newIDPX(nil, nil, c.randConf())
+		idp.LogoutURL = mustURL("https://idp.example.com/saml/slo")
+		c.metadataFixpoint("idp.Metadata()", *idp.Metadata(), true)
 	}
 }
